@@ -76,7 +76,7 @@ Fixpoint eval_cb (s : st) (c : cb) (next : N) : cbres * N :=
   | CPanicErr e =>
       match get_err s (Some e) with
       | Some x => (Panicking (PVErr x), next)
-      | None => (Panicking (PVErr (ELeaf next "panic called with nil argument (obsolete and disabled by GODEBUG=panicnil=1)" "*runtime.PanicNilError")), (next + 1)%N)
+      | None => (Panicking (PVErr (ELeaf next "panic called with nil argument" "*runtime.PanicNilError")), (next + 1)%N)
       end
   | CPanicVal id fmtv => (Panicking (PVOther id fmtv), next)
   | CPanicRt msg ty => (Panicking (PVErr (ELeaf next msg ty)), (next + 1)%N)
